@@ -282,7 +282,15 @@ func cssURL(out string) (string, bool) {
 	}
 	v := strings.TrimSpace(rest[:j])
 	if len(v) >= 2 && (v[0] == '"' || v[0] == '\'') && v[len(v)-1] == v[0] {
+		q := v[0]
 		v = v[1 : len(v)-1]
+		for k := 0; k < len(v); k++ {
+			if v[k] == '\\' {
+				k++
+			} else if v[k] == q {
+				return "", false // the string ends here: the rest is not part of the URL
+			}
+		}
 		v = strings.NewReplacer(`\"`, `"`, `\'`, `'`, `\\`, `\`).Replace(v)
 	} else if strings.ContainsAny(v, "\"'() \t\n") {
 		return "", false // an unquoted url() may not contain quotes, parentheses or white space (CSS Syntax: bad-url token)
@@ -358,6 +366,7 @@ var hosts = []host{
 	{name: "svg style element", hostType: "image/svg+xml", build: func(p string) string { return "<svg><style>" + xmlTextEscape(p) + "</style><g/></svg>" }, wantType: "text/css", pre: strings.TrimSpace, extract: svgStyleText},
 	{name: "svg style CDATA", hostType: "image/svg+xml", build: func(p string) string { return "<svg><style><![CDATA[" + p + "]]></style><g/></svg>" }, wantType: "text/css", pre: ident, extract: svgStyleText},
 	{name: "svg style= attribute", hostType: "image/svg+xml", build: func(p string) string { return "<svg><g style=\"" + xmlAttrEscape(p) + "\"/></svg>" }, wantType: "text/css", wantParams: "inline=1;", pre: xmlAttrNorm, extract: svgAttr("g", "style"), attr: true},
+	{name: "css single-quoted url(data:image/svg+xml)", hostType: "text/css", build: func(p string) string { return "a{b:url('data:image/svg+xml," + pctEncode(p+pad) + "')}" }, wantType: "image/svg+xml", pre: func(p string) string { return p + pad }, dataURI: true, extract: dataURIPayload(cssURL), attr: true},
 	{name: "css unquoted url(data:image/svg+xml)", hostType: "text/css", build: func(p string) string { return "a{b:url(data:image/svg+xml," + pctEncode(p+pad) + ")}" }, wantType: "image/svg+xml", pre: func(p string) string { return p + pad }, dataURI: true, extract: dataURIPayload(cssURL), attr: true},
 	{name: "html style= with unquoted url(data:image/svg+xml)", hostType: "text/html", via: "text/css", build: func(p string) string {
 		return "<p style=\"b:url(data:image/svg+xml," + pctEncode(p+pad) + ")\">x</p>"
